@@ -92,8 +92,10 @@ IDManager::GetHeartBeater()  //
  *############################################################################*/
 
 IDManager::HeartBeater::~HeartBeater()
-{  //
-  _id_vec[*id_].store(false, kRelaxed);
+{
+  const auto id = *id_;
+  id_.reset();  // expire the heartbeat before the ID becomes reusable
+  _id_vec[id].store(false, kRelaxed);
 }
 
 auto
